@@ -18,7 +18,7 @@ HARNESS = os.path.join(HARNESS_DIR, "target", "release", "mrl-harness")
 WORK = os.path.join(VERIF, "work")
 REPLAYS = os.path.join(WORK, "replays")
 KNOWN = os.path.join(VERIF, "known_findings.json")
-REPO = "/repo"
+REPO = os.environ.get("VERIF_REPO", "/repo")  # (vp run --with-repo snapshots: see bin/sweep)
 
 
 class ToolError(Exception):
